@@ -351,8 +351,8 @@ class X86Leg(object):
     def regmem_cases(self, cc, r):
         c = cc.case
         out = []
-        if any(o[0] == "m" for o in c.ops):
-            return out
+        if any(o[0] == "m" for o in c.ops) or cc.variant.startswith("v"):
+            return out        # (the register-id alphabet variants v16@j / v31@j / v15@j repeat the "reg" case)
         for j, info in enumerate(r.ops):
             if not info.flags & L.F_REGMEM or c.ops[j][0] != "r":
                 continue
